@@ -88,7 +88,7 @@ Section TopK.
     else N.leb (it_gpos x) (it_gpos y).
 
   (* the items of one partition: the stream restarts, seq restarts, gpos continues *)
-  Fixpoint items_part (prios : list P) (sq g : N) (part : list T) : list item :=
+  Fixpoint items_part (prios : list P) (sq g : N) (part : list T) {struct part} : list item :=
     match part, prios with
     | v :: r, p :: ps => (p, sq, g, v) :: items_part ps (N.succ sq) (N.succ g) r
     | _, _ => []
@@ -115,6 +115,15 @@ Fixpoint prio_stream (n : nat) (st : N) : list N :=
   | O => []
   | S n' => let '(s, x) := sm_next st in prio_of_bits x :: prio_stream n' s
   end.
+
+(* SplitMix64's state after j draws is st + j * GOLDEN, so the j-th priority of a stream is
+   available directly (Proofs/ReservoirTopK.v: prio_stream_nth) *)
+Definition sm_mix (s : N) : N :=
+  let z1 := w64 (N.lxor s (N.shiftr s 30) * MIX1) in
+  let z2 := w64 (N.lxor z1 (N.shiftr z1 27) * MIX2) in
+  N.lxor z2 (N.shiftr z2 31).
+Definition prio_at (st : N) (j : N) : N :=
+  prio_of_bits (sm_mix (w64 (st + (j + 1) * GOLDEN))).
 
 Definition topk_spec {T} (k : nat) (seed : N) (parts : list (list T)) : list T :=
   topk_sample N.ltb (prio_stream (max_len parts) (stream_state0 seed)) k parts.
